@@ -82,6 +82,10 @@ def generate(seed, run, tier):
             ops.append({'op': 'base', 'name': rs.choice(names),
                         'strength': rs.choice([0.0, -0.5, 1.0]) if rs.chance(0.2) else rs.loguniform(1e-6, 10.0),
                         'as_tensor': rs.chance(0.3)})
+            if Stream(seed, ID, run, 'base_reuse', len(ops)).chance(0.5):
+                # ONE long-lived BaseRegularizer object per run whose public attributes (strength, cost_name) the script
+                # re-assigns between calls (a strength warm-up / sweep) instead of a fresh object per call
+                ops[-1]['reuse'] = True
             continue
         if r < 0.32:
             # the model's costs move (training progressed): multiply by a factor
@@ -408,6 +412,7 @@ def execute(case):
 
     pending_fault_flag = [False]
     others = {}
+    base_obj = []
 
     def other_call(i, op):
         """a call of ANOTHER regularizer object (own targets, own strengths, own stub model), built at its first use"""
@@ -454,7 +459,15 @@ def execute(case):
             other_call(i, op)
         elif k == 'base':
             st = torch.tensor(float(op['strength'])) if op.get('as_tensor') else op['strength']
-            br = BaseRegularizer(cost_name=op['name'], strength=st)
+            if op.get('reuse') and base_obj:
+                br = base_obj[0]
+                br.strength = st
+                br.cost_name = op['name']
+                bump('base_regularizer_object_reused_with_reassigned_strength')
+            else:
+                br = BaseRegularizer(cost_name=op['name'], strength=st)
+                if op.get('reuse'):
+                    base_obj.append(br)
             c_before = cost_now(op['name'])
             val_b = br(model)
             got = float(val_b.detach())
